@@ -38,6 +38,10 @@ func (m *c09Momentum) GetFrontierMomentum() (*nom.Momentum, error) {
 	t := time.Unix(int64(m.ts), 0)
 	return &nom.Momentum{Height: m.height, TimestampUnix: m.ts, Timestamp: &t, Hash: types.Hash{9}}, nil
 }
+func (m *c09Momentum) GetGenesisMomentum() *nom.Momentum {
+	t := time.Unix(1600000000, 0)
+	return &nom.Momentum{Height: 1, TimestampUnix: 1600000000, Timestamp: &t}
+}
 func (m *c09Momentum) IsSporkActive(s *types.ImplementedSpork) (bool, error) {
 	switch s.SporkId {
 	case types.AcceleratorSpork.SporkId:
@@ -57,6 +61,14 @@ type c09Pillars struct {
 
 func (p *c09Pillars) EpochTicker() common.Ticker {
 	return common.NewTicker(time.Unix(1600000000, 0), 24*time.Hour)
+}
+
+// consensus statistics of an epoch: an empty pillar set (the reward formulas over non-empty statistics are C11's kernels)
+func (p *c09Pillars) EpochStats(epoch uint64) (*api.EpochStats, error) {
+	return &api.EpochStats{Epoch: epoch, Pillars: map[string]*api.EpochPillarStats{}, TotalWeight: big.NewInt(0)}, nil
+}
+func (p *c09Pillars) GetPillarDelegationsByEpoch(epoch uint64) (map[string]*types.PillarDelegationDetail, error) {
+	return map[string]*types.PillarDelegationDetail{}, nil
 }
 
 type c09Env struct {
